@@ -30,7 +30,7 @@ def plan(tier, seed):
     specs = [{"kind": "exhaustive", "first": t} for t in ALPHABET]
     specs.append({"kind": "exhaustive", "first": None})
     for _ in range(4 if tier == "quick" else 12):
-        specs.append({"kind": "chains", "n": 1500 if tier == "quick" else 10000})
+        specs.append({"kind": "chains", "n": 1500 if tier == "quick" else 60000})
     return specs
 
 
